@@ -21,3 +21,31 @@ package geom
 //@ lemma zigzag_decode_encode: forall n: int64 :: decodeZigZagInt64(encodeZigZagInt64(n)) == n
 //@ lemma zigzag_encode_decode: forall z: uint64 :: encodeZigZagInt64(decodeZigZagInt64(z)) == z
 //@ lemma zigzag_small_magnitudes: forall n: int64 :: -8 <= n && n <= 7 ==> encodeZigZagInt64(n) < 16
+
+// ---- Densify (C17): vertices are only ever added ----
+//@ prop C17,C16,C20,C10
+//@ func Coordinates.appendFloat64s
+//@   requires c.Type < 4
+//@   modifies dst
+//@   ensures len(result) == len(dst) + Dim(c.Type) && ((cap(dst) > 0 && region(result) == region(dst) && offset(result) == offset(dst)) || fresh(result))
+//@   ensures forall q :: 0 <= q && q < len(dst) ==> same(result[q], old(dst[q]))
+//@   ensures same(result[len(dst)], c.XY.X) && same(result[len(dst) + 1], c.XY.Y)
+//@   ensures HasZ(c.Type) ==> same(result[len(dst) + 2], c.Z)
+//@   ensures HasM(c.Type) ==> same(result[len(dst) + ite(HasZ(c.Type), 3, 2)], c.M)
+
+// every original vertex survives (first and last bit-identical, count never drops), coordinate type kept
+//@ func densify
+//@   mode real
+//@   split seq.ctype 0 1 2 3
+//@   requires maxDist > 0
+//@   ensures result.ctype == seq.ctype && SeqInv(result) && NPts(result) >= NPts(seq)
+//@   ensures NPts(seq) > 0 ==> same(result.floats[0], seq.floats[0]) && same(result.floats[1], seq.floats[1])
+//@   ensures NPts(seq) > 0 ==> same(result.floats[len(result.floats) - Dim(seq.ctype)], seq.floats[len(seq.floats) - Dim(seq.ctype)]) && same(result.floats[len(result.floats) - Dim(seq.ctype) + 1], seq.floats[len(seq.floats) - Dim(seq.ctype) + 1])
+//@   loop 0 invariant 0 <= i && i <= n - 1 && n == NPts(seq) && n > 0 && len(dense) >= i * Dim(seq.ctype) && len(dense) % Dim(seq.ctype) == 0 && (cap(dense) == 0 || (fresh(dense) && region(dense) != region(seq.floats)))
+//@   loop 0 invariant i > 0 ==> same(dense[0], seq.floats[0]) && same(dense[1], seq.floats[1])
+//@   loop 1 invariant 1 <= j && 0 <= i && i < n - 1 && n == NPts(seq) && len(dense) >= (i + 1) * Dim(seq.ctype) && len(dense) % Dim(seq.ctype) == 0 && fresh(dense) && cap(dense) > 0 && region(dense) != region(seq.floats) && c0.Type == seq.ctype && c1.Type == seq.ctype
+//@   loop 1 invariant same(dense[0], seq.floats[0]) && same(dense[1], seq.floats[1])
+
+//@ func LineString.Densify
+//@   requires minDistance > 0
+//@   ensures result.seq.ctype == s.seq.ctype && NPts(result.seq) >= NPts(s.seq)
